@@ -47,6 +47,9 @@ func doPut(txn *lmdb.Txn, dbi lmdb.DBI, it Iterator, isEmpty bool) error {
 				if err != nil && !lmdb.IsNotFound(err) {
 					return fmt.Errorf("del: %w", err)
 				}
+				if err == nil {
+					observeWrite(it)
+				}
 			}
 			continue
 		}
@@ -56,5 +59,6 @@ func doPut(txn *lmdb.Txn, dbi lmdb.DBI, it Iterator, isEmpty bool) error {
 		if err != nil {
 			return fmt.Errorf("put: %w", err)
 		}
+		observeWrite(it)
 	}
 }
